@@ -54,67 +54,67 @@ def make_world(contracts):
     return w
 
 
-_W = {}
+def summarize(rep, c):
+    return {'id': c.id, 'file': c.file, 'func': c.func, 'hash': rep.src_hash, 'line': rep.line,
+            'paths': rep.paths, 'obligations': list(getattr(rep, 'summary', None) or []), 'notes': rep.notes,
+            'unsupported': rep.unsupported, 'covers': sorted(rep.covers), 'vacuous': rep.vacuous,
+            'wall': round(rep.wall, 3), 'trusted': c.trusted, 'serves': c.serves, 'replay': c.replay}
 
 
-def _verify_one(args):
-    """worker: verify one contract, return a picklable summary."""
-    cid, tier, known = args
-    try:
-        from .verify import verify_contract, discharge, concretize
-        from .explore import SolverCache
-        contracts = _W['contracts']
-        c = [x for x in contracts if x.id == cid][0]
-        w = _W['world']
-        t0 = time.time()
-        rep = verify_contract(w, c, SolverCache(), max_paths=20000 if tier == 'thorough' else 6000)
-        timeout = 30000 if tier == 'thorough' else 10000
-        discharge(rep, timeout)
-        obs = []
-        for ob, verdict, backend, dt, model in rep.results:
-            d = {'name': ob.name, 'verdict': verdict, 'backend': backend, 't': round(dt, 4), 'line': ob.line,
-                 'kind': ob.kind, 'info': ob.info, 'path': list(ob.path or ())}
-            if verdict == 'refuted' and model is not None and rep.inputs is not None:
-                try:
-                    d['inputs'] = {k: concretize(v, model) for k, v in rep.inputs.items()}
-                except Exception as e:      # noqa
-                    d['inputs_error'] = repr(e)
-                d['model'] = str(model)[:2000]
-            obs.append(d)
-        return {'id': cid, 'file': c.file, 'func': c.func, 'hash': rep.src_hash, 'line': rep.line,
-                'paths': rep.paths, 'obligations': obs, 'notes': rep.notes, 'unsupported': rep.unsupported,
-                'covers': sorted(rep.covers), 'vacuous': rep.vacuous, 'wall': round(time.time() - t0, 3),
-                'trusted': c.trusted, 'serves': c.serves, 'replay': c.replay}
-    except Exception:
-        return {'id': cid, 'error': traceback.format_exc(), 'obligations': [], 'notes': [], 'unsupported': [],
-                'covers': [], 'vacuous': False, 'paths': 0, 'wall': 0, 'serves': []}
+_GEN = {}
+
+
+def _gen_one(i):
+    from .verify import verify_contract
+    from .explore import SolverCache
+    c, tier = _GEN['mine'][i], _GEN['tier']
+    return verify_contract(_GEN['world'], c, SolverCache(timeout_ms=1000),
+                           max_paths=20000 if tier == 'thorough' else 8000)
 
 
 def run_property(pid, tier, seed, only=None, jobs=None):
+    from .verify import verify_contract, discharge_parallel, FunctionReport
+    from .explore import SolverCache
     t0 = time.time()
     contracts = load_contracts()
+    known_all = load_known()
+    for c in contracts:
+        for k in known_all:
+            if k.get('status', 'open') == 'open' and k.get('excluding') and k.get('contract') == c.id.split('[')[0]:
+                c.known[k['obligation']] = k['excluding']
     mine = [c for c in contracts if pid in c.serves and not c.trusted]
     if only:
         mine = [c for c in mine if any(o in c.id for o in only)]
     world = make_world(contracts)
-    _W['contracts'] = contracts
-    _W['world'] = world
-    known = [k for k in load_known() if k.get('property') == pid]
-    jobs = jobs or min(16, max(1, len(mine)))
-    work = [(c.id, tier, known) for c in mine]
-    if jobs > 1 and len(work) > 1:
-        ctx = mp.get_context('fork')
-        with ctx.Pool(jobs) as pool:
-            reports = pool.map(_verify_one, work, chunksize=1)
-    else:
-        reports = [_verify_one(wk) for wk in work]
+    known = [k for k in known_all if k.get('property') == pid or pid in k.get('properties', [])]
+    jobs = jobs or 16
+    reps = []
+    for c in mine:
+        try:
+            reps.append(verify_contract(world, c, SolverCache(timeout_ms=1000),
+                                        max_paths=20000 if tier == 'thorough' else 8000))
+        except Exception:
+            r = FunctionReport(c)
+            r.error = traceback.format_exc()
+            reps.append(r)
+    t1 = time.time()
+    timeout = int(os.environ.get('VERIF_SOLVER_MS', 60000 if tier == 'thorough' else 20000))
+    discharge_parallel([r for r in reps if not r.error], timeout, jobs)
+    reports = []
+    for c, r in zip(mine, reps):
+        if r.error:
+            reports.append({'id': c.id, 'error': r.error, 'obligations': [], 'notes': [], 'unsupported': [],
+                            'covers': [], 'vacuous': False, 'paths': 0, 'wall': 0, 'serves': c.serves})
+        else:
+            reports.append(summarize(r, c))
     # extra (non-function) obligations of this property: lemmas, table invariants, regex obligations
     extras = []
     try:
         from . import extras as X
-        extras = X.run(pid, tier, seed, world)
     except ImportError:
-        pass
+        X = None
+    if X is not None:
+        extras = X.run(pid, tier, seed, world)
     return finish(pid, tier, seed, mine, contracts, reports, extras, known, time.time() - t0)
 
 
